@@ -1,8 +1,10 @@
 import Driver.Util
 import Driver.Sched.Monitor
 import Driver.Sched.Goals
+import Driver.Sched.ReqMonitor
 /-! package `Sched` (see CONVENTIONS.md): register components in `step`.
-`schedm` = the event-log conformance monitor of the scheduler model (`Driver/Sched/Monitor.lean`). -/
+`schedm` = the event-log conformance monitor of the scheduler model (`Driver/Sched/Monitor.lean`);
+`reqm` = the one of the requester protocol (`Driver/Sched/ReqMonitor.lean`, `Model/Requesters.lean`). -/
 namespace Driver.Sched
 open Driver
 
@@ -10,6 +12,7 @@ structure St where
   debug : Bool := true
   mon : M := {}
   goals : Goals.St := {}
+  req : ReqMon.RM := {}
 
 /-- `none` = not a component of this package. -/
 def stepPkg (st : St) (toks : List String) : Option (St × String) :=
@@ -17,6 +20,9 @@ def stepPkg (st : St) (toks : List String) : Option (St × String) :=
   | "schedm" :: args =>
     let (m, o) := step st.mon args
     some ({ st with mon := m }, o)
+  | "reqm" :: args =>
+    let (m, o) := ReqMon.step st.req args
+    some ({ st with req := m }, o)
   | "goals" :: args =>
     let (g, o) := Goals.step st.goals args
     some ({ st with goals := g }, o)
